@@ -53,28 +53,59 @@ def check_key_table_filter(ctx, rule):
     if tf is None:
         ctx.bad(rule, "Layout::try_into", "not found")
         return
-    b = body_of(fx, tf["key"])
-    ctx.touch_body(b)
+    b = ctx.region(None, policy="private", key=tf["key"], ps=True)
     news = b.calls_named("models::layout::metadata::LayoutMetadata::new")
     okf = False
     detail = "LayoutMetadata::new call not found"
+    KEYS_OF_SELF = ("param", 1, (("f", "keys"),))
     if len(news) == 1:
         nf = fx.fn("models::layout::metadata::LayoutMetadata::new")
         nb = body_of(fx, nf["key"])
         pl = nb.trace({"l": 0, "p": []}, (("f", "keys"),))
         if pl and all(l.kind == "param" for l in pl):
             arg = news[0][1]["args"][pl[0].data - 1]
-            stop = lambda t: callee_name(t) in ("std::iter::Iterator::filter", "std::iter::Iterator::filter_map")
+            stop = lambda t: callee_name(t) in ("std::iter::Iterator::filter", "std::iter::Iterator::filter_map", "std::collections::HashMap::new",
+                                                "std::collections::BTreeMap::new", "std::default::Default::default")
             lv = b.trace(arg, (), stop)
             detail = "keys <- {%s}" % ", ".join(leaf_s(b, l) for l in lv)
             okf = bool(lv)
             for l in lv:
+                if l.kind == "call" and callee_name(l.data[1]) in ("std::collections::HashMap::new", "std::collections::BTreeMap::new", "std::default::Default::default") \
+                        and not l.path and set(l.via) <= {"Iterator::collect", "FromIterator::from_iter"}:
+                    # shape B: a table filled by insertions; each insertion is (id, key) of one entry of self.keys and is
+                    # edge-dominated by `id == key.key_id()`
+                    table = ("call", l.data[0], ())
+                    ins = [(i, t) for (i, t) in b.calls_named("std::collections::HashMap::insert", "std::collections::BTreeMap::insert")
+                           if table in root_ids(b, t["args"][0])]
+                    others = [(i, callee_name(t)) for (i, t) in b.calls() if t["args"] and table in root_ids(b, t["args"][0])
+                              and callee_name(t).split("::")[-1] in ("extend", "entry", "append", "insert_entry", "try_insert")]
+                    if not ins or others:
+                        okf = False
+                        detail += "; table filled by %d insertion(s), other writers %s" % (len(ins), others)
+                    for (i, t) in ins:
+                        kr, vr = root_ids(b, t["args"][1]), root_ids(b, t["args"][2])
+                        entry = {(k, i_, p[:-1]) for (k, i_, p) in kr if p[-1:] == (F0,)} == {(k, i_, p[:-1]) for (k, i_, p) in vr if p[-1:] == (F1,)} \
+                            and bool(kr) and all(p[-1:] == (F0,) and (k, i_, p[:-2]) == KEYS_OF_SELF for (k, i_, p) in kr) and all(p[-1:] == (F1,) for (k, i_, p) in vr)
+                        eqok = False
+                        for (e, fa) in b.facts_dominating(i):
+                            cm = as_cmp(fa)
+                            if cm and cm[0] == "Eq":
+                                for (u, v) in ((cm[1], cm[2]), (cm[2], cm[1])):
+                                    if root_ids(b, u) == kr:
+                                        vl = b.trace(v)
+                                        if vl and all(x.kind == "call" and callee_name(x.data[1]) == "crypto::PublicKey::key_id" and
+                                                      root_ids(b, x.data[1]["args"][0]) == vr for x in vl):
+                                            eqok = True
+                        if not (entry and eqok):
+                            okf = False
+                            detail += "; insertion at %s: (id, key) of one entry of self.keys: %s, dominated by `id == key.key_id()`: %s" % (t["at"], entry, eqok)
+                    continue
                 if not (l.kind == "call" and callee_name(l.data[1]) == "std::iter::Iterator::filter" and set(l.via) <= {"Iterator::collect", "FromIterator::from_iter"}):
                     okf = False
                     continue
                 ft = l.data[1]
                 src = root_ids(b, ft["args"][0])
-                if src != frozenset([("param", 1, (("f", "keys"),))]):
+                if src != frozenset([KEYS_OF_SELF]):
                     okf = False
                     detail += "; filter source %s" % sorted(src)
                 p = op_place(ft["args"][1])
@@ -103,6 +134,17 @@ def check_key_table_filter(ctx, rule):
                                         vl and all(x.kind == "call" and callee_name(x.data[1]) == "crypto::PublicKey::key_id" and
                                                    all(y.kind == "param" and y.data == 2 and y.path[-1:] == (F1,) for y in cb.trace(x.data[1]["args"][0])) for x in vl):
                                     eqok = True
+                    if not eqok:
+                        # the closure may return the comparison itself: `|(id, key)| id == key.key_id()`
+                        if st["rv"]["k"] == "use" and op_place(st["rv"]["op"]):
+                            dc = def_call(cb, st["rv"]["op"])
+                            if dc and callee_name(dc[1]) == "std::cmp::PartialEq::eq":
+                                ul, vl = cb.trace(dc[1]["args"][0]), cb.trace(dc[1]["args"][1])
+                                for (ul_, vl_) in ((ul, vl), (vl, ul)):
+                                    if ul_ and all(x.kind == "param" and x.data == 2 and x.path[-1:] == (F0,) for x in ul_) and \
+                                            vl_ and all(x.kind == "call" and callee_name(x.data[1]) == "crypto::PublicKey::key_id" and
+                                                        all(y.kind == "param" and y.data == 2 and y.path[-1:] == (F1,) for y in cb.trace(x.data[1]["args"][0])) for x in vl_):
+                                        eqok = True
                     if not eqok:
                         good = False
                 if not (good and seen_true):
